@@ -7,6 +7,7 @@ import json
 import os
 import re
 import sys
+import time
 
 from rustlex import (lex, match_map, scan_items, find_item, strip_comments, Unsupported, norm, cfg_ok, angle_close)
 import lower
@@ -459,12 +460,25 @@ def splice_fn(it_spec, item, contract, unit, em, extraction, active=None, featur
     if entry:
         etxt = "\n".join("/*@hint entry|%s*/ " % c.name() + c.text for c in entry)
         body = "{\n" + etxt + "\n" + body.lstrip()[1:]
+    if VACUITY[0] and not bodiless and not it_spec.get("_inactive") and "external_body" not in (it_spec.get("sig_prefix") or ""):
+        body = "{\n/*@hint probe|*/ " + _probe("%s/entry" % key) + "\n" + body.lstrip()[1:]
     if bodiless:
         em.add(";", item=key, part="sig")
     else:
         emit_body(body, key, em)
     extraction.append(dict(key=key, file=relp(item.path), lines=[a, b], sha256=h, inactive=bool(it_spec.get("_inactive")),
                            rules=[dict(rule=r, original=o) for r, o in log]))
+
+
+# vacuity probes (thorough tier): `assert(vx_probe(k))` at every function entry and loop-body entry of the verified
+# functions; vx_probe is uninterpreted, so each probe must FAIL -- one that verifies sits behind contradictory clauses
+VACUITY = [False]
+PROBES = []
+
+
+def _probe(where):
+    PROBES.append(where)
+    return "proof { assert(vx_probe(%d)); }" % (len(PROBES) - 1)
 
 
 _MARK = re.compile(r"/\*@(\w+)(?: ([^*]*))?\*/")
@@ -592,6 +606,8 @@ def splice_loops(body, contract, key, active=None):
             le = select_hints(contract.get("%s %s" % (sec, lk)) + contract.get("%s? %s" % (sec, lk)), active)
             if le:
                 ins.append((off, "\n" + "\n".join("/*@hint %s:%s|%s*/ %s" % (nm, lk, c.name(), c.text) for c in le) + "\n"))
+        if VACUITY[0]:
+            ins.append((ob + 1, "\n/*@hint probe|*/ " + _probe("%s/loop:%s" % (key, lk)) + "\n"))
     for off, txt in sorted(ins, key=lambda x: -x[0]):
         body = body[:off] + txt + body[off:]
     return body
@@ -677,6 +693,12 @@ def ensure_expanded(extra_example=None):
     shutil.rmtree(scratch, ignore_errors=True)
     try:
         subprocess.run(["rsync", "-a", "--exclude", "target", "--exclude", ".git", REPO + "/", scratch + "/"], check=True)
+        # cargo decides freshness of path dependencies by mtime; a copy older than the last build would reuse stale artefacts
+        now = time.time()
+        for d, _, fs in os.walk(scratch):
+            for f in fs:
+                if f.endswith(".rs") or f.endswith(".toml"):
+                    os.utime(os.path.join(d, f), (now, now))
         env = dict(os.environ, CARGO_TARGET_DIR=os.path.join(VERIF, "build", "exp-target"), CARGO_NET_OFFLINE="true")
         if extra_example:
             shutil.copy(extra_example, os.path.join(scratch, "examples", "vx_derive_samples.rs"))
@@ -723,6 +745,8 @@ def generate(unit_dir, features=("parallel", "shred-derive"), mode="T", active=N
         em.add(a, part="gen")
     em.add("use vstd::prelude::*;", part="gen")
     em.add("verus! {", part="gen")
+    if VACUITY[0]:
+        em.add("pub uninterp spec fn vx_probe(k: int) -> bool;", part="gen")
     for f in unit.get("prelude", []):
         txt = open(os.path.join(unit_dir, f)).read()
         lines, conds = select_mode(txt, mode, features, active, with_cond=True)
